@@ -313,7 +313,9 @@ func NewAudDriver(tier string) *AudDriver {
 		d.ops = append(d.ops, audOp{e, 0, 1, 0, "own"})
 	}
 	d.ops = append(d.ops, audOp{1, 0, 0, 1, "own"}, audOp{1, 0, 2, 0, "own"}, audOp{1, 0, 0, 0, "S"}, audOp{257, 1, 2, 0, "own"},
-		audOp{1, 0, 0, 0, "other"}, audOp{1, 0, 1, 0, "other"})
+		audOp{1, 0, 0, 0, "other"}, audOp{1, 0, 1, 0, "other"},
+		// a result of somebody outside the Inner Ring, witnessed by its author and by a member
+		audOp{1, 0, 2, 0, "own+member"}, audOp{257, 1, 2, 0, "own+member"})
 	return d
 }
 
@@ -374,7 +376,11 @@ func (d *AudDriver) Step(x *Exec, n *Node, i int) StepResult {
 		signer = d.nodes[1-o.from].Hash
 	}
 	blob := d.blob(o)
-	obs, nn := x.Do(n, Call{Script: Script(h, "put", blob), Signers: []util.Uint160{signer}, Label: d.OpName(n, i)})
+	signers := []util.Uint160{signer}
+	if o.signer == "own+member" {
+		signers = []util.Uint160{d.nodes[o.from].Hash, d.nodes[0].Hash}
+	}
+	obs, nn := x.Do(n, Call{Script: Script(h, "put", blob), Signers: signers, Label: d.OpName(n, i)})
 	want := o.from < 2 && o.signer == "own"
 	if obs.Halt != want {
 		where["auditor_is_member"], where["witnessed"] = o.from < 2, o.signer == "own"
